@@ -26,7 +26,7 @@ P = {
          "resolveEnv reports success only after a resolver succeeded (an unresolvable reference is an error, never an empty value), and the lookup "
          "order tree root -> Env last-to-first -> resolvers last-to-first is the one coded, a configuration that does not hold the name handing over "
          "to the next one (the lookup ends only with the value found or with the environments used up; a nil configuration given with Env is skipped and ends nothing), and a resolver that fails handing over to "
-         "the next resolver whatever its error. Operator semantics, escapes and typed results are value-level "
+         "the next resolver whatever its error; parseSplice answers only with the expression parseVarExp built from the lexer's tokens — the lexer is what removes the escapes, so no shortcut may hand a string back unlexed (R02h). Operator semantics, the escape table itself and typed results are value-level "
          "and not decided.",
          TRUST,
          "§3 C02"),
@@ -38,6 +38,7 @@ P = {
          "of the comparison's type (math.MaxInt64 as float64 is 2^63, so the bound must be strict) and at least one true-edge fact for floats (NaN). "
          "A number kept as text is converted by handing the stored text itself to strconv.Parse* (no rewriting in front of the parser). "
          "Integer seconds reach a Duration through integer arithmetic only (no detour through float64, which would round above 2^53). "
+         "reifyDuration classifies what a reference evaluates to, not the reference node, so a number behind a reference means seconds like one written in place (R03f). "
          "Thorough tier repeats the rules for GOARCH=386. Two known findings (reflect fall-through for unsupported kinds; int(idx) on 32-bit). "
          "That an in-range number is stored exactly, and strconv/time parsing, are not decided.",
          TRUST + "strconv and time.ParseDuration trusted.",
@@ -53,7 +54,7 @@ P = {
          "One reasoned exception (pointer-to-map branch of reifyValue). Every accepting path of a built-in tag validator that reads the value as a "
          "float takes the true edge of a float comparison, so NaN is never accepted by default; every one of them decides on the kind of the "
          "value behind pointers and none recognises strings by an assertion to string; in reifyStruct every field that is not skipped reaches an "
-         "unpack/validate routine before the next iteration. "
+         "unpack/validate routine, and uses the field's own validate tag, before the next iteration (an inlined map or struct included: validateStruct, the sibling that only validates, applies the tag to every field). "
          "That each built-in validator computes the right predicate otherwise is not decided.",
          TRUST + "Custom validators and Validate() methods are user code: decided is that they are called.",
          "§3 C04"),
@@ -161,7 +162,7 @@ P = {
          "the stored config itself, an index segment addresses only the list part of a node and a named segment only the dictionary part (getter, "
          "setter and remover of a segment agree on where it lives; the path walkers use only those segment methods; each typed getter returns its own "
          "accessor's result and each typed setter stores its own node kind with the argument as payload; CountField and the address functions getField / "
-         "setField find their setting through the parsed path, never by a literal lookup), and SetChild stores the caller's own config, wrapped and never copied; the path writer touches the live tree only with its last fallible step (missing levels are built detached), so a "
+         "setField find their setting through the parsed path, never by a literal lookup; no successful return of an addressed entry point lies around the call that reaches parsePathIdx — a shortcut that answers Has(name) from the dictionary classifies a bare number differently from every other entry point), and SetChild stores the caller's own config, wrapped and never copied; the path writer touches the live tree only with its last fallible step (missing levels are built detached), so a "
          "rejected write leaves the tree as it was; node mutators move stored values and never replace one by a copy. The equivalence with a plain tree over all operation histories is value-level and not decided.",
          TRUST,
          "§3 C12"),
@@ -196,7 +197,7 @@ P = {
          "owner of the receiving fields; in-place element moves are followed by renumbering of every moved element; every SetContext implementation "
          "stores its argument reachably on every path; Parent() and path() read the same two fields; the text of an index field is the decimal "
          "rendering of its own integer; every key FlattenedKeys emits has a context path in its derivation, the family walks both parts of a node and "
-         "classifies values by toConfig; context.path takes the node without parent for the root, never an empty name; an existing node is re-contexted only next to the store that attaches it or to renumber it. Since the invariant can only be broken at a "
+         "classifies values by toConfig; context.path takes the node without parent for the root, never an empty name, and no function that produces paths (path, pathOf, the FlattenedKeys family and their string helpers) compares a path text with the empty string (R15m); an existing node is re-contexted only next to the store that attaches it or to renumber it. Since the invariant can only be broken at a "
          "store or a move, it holds after any operation history. FlattenedKeys' set equality and the diff partition are not decided.",
          TRUST,
          "§3 C15"),
@@ -229,7 +230,7 @@ P = {
          "key take the metadata of the value being stored, that cfgInt, cfgUint and cfgFloat support the same conversions (the front-ends differ in which "
          "of them a whole number becomes), that the empty config a null reads as keeps the null's metadata and a setter attaches its metadata before "
          "the store, that every error constructor forwards real metadata to messageMeta, and that no normalize "
-         "function has a store path of its own for one decoder's representation (every named setting goes through normalizeSetField). Holds for all documents at once; equality of the data produced by the three third-party decoders is not decided.",
+         "function has a store path of its own for one decoder's representation (every named setting goes through normalizeSetField), and that what parseValue parses out of the text of a value is normalised with that value's metadata, not with the reading call's (R18k). Holds for all documents at once; equality of the data produced by the three third-party decoders is not decided.",
          TRUST + "Third-party decoders are outside the tree.",
          "§3 C18"),
  "C19": (True,
